@@ -83,6 +83,19 @@ class ImmutMonitor:
             if getattr(func, "__name__", "") == "copyto" or kwargs.get("out") is not None:
                 return None
         snaps = {}
+        # objects handed over as explicit output targets (also when the same object is an input)
+        targets = set()
+        out_arg = args.get("out")
+        if short == "copyto":
+            out_arg = args.get("dst")
+        for item in (out_arg if isinstance(out_arg, (tuple, list)) else [out_arg]):
+            if item is not None:
+                targets.add(id(item))
+        for value in args.values():
+            if isinstance(value, dict) and value.get("out") is not None:
+                item = value["out"]
+                for sub in (item if isinstance(item, (tuple, list)) else [item]):
+                    targets.add(id(sub))
         count = code.co_argcount + code.co_kwonlyargcount
         varkw = None
         if code.co_flags & 0x08:
@@ -93,10 +106,16 @@ class ImmutMonitor:
             if param == varkw and isinstance(value, dict):
                 # the **kwargs dict itself is the callee's own object; its values are the caller's
                 for key, item in value.items():
+                    if id(item) in targets:
+                        continue
                     if key not in EXEMPT_PARAMS and isinstance(item, (numpy.ndarray, list, tuple, dict)):
                         snaps[f"{param}[{key}]"] = (item, snapshot(item))
                 continue
+            if id(value) in targets:
+                continue
             if isinstance(value, (numpy.ndarray, list, tuple, dict)):
+                if isinstance(value, (list, tuple)) and any(id(v) in targets for v in value):
+                    continue
                 snaps[param] = (value, snapshot(value))
         return snaps or None
 
